@@ -116,7 +116,7 @@ CLAIMED = {
         "after a connection loss or EOF, whatever happened earlier in the same iteration (resolved future, fired timeout, another loss), no reset or start-up waiter is left pending and connection_lost never raises. Tie: generated RESET_TIMEOUT/codes + real Gateway + AshProtocol on a virtual-time loop: all 256 RSTACK and 256 ERROR codes × 4 arrival patterns, all 64 counter states, losses/EOF at every step alone and batched in one iteration in both orders, random batches; an unanswered request with frames arriving at various times before the deadline (timeout exactly RESET_TIMEOUT after the request). "
         "Source-level: Gateway.reset_received / error_received / connection_lost / eof_received / _reset_cleanup / data_received / close are translated from bellows/uart.py's syntax tree on every run (harness/pytrans.py -> BV/Gen/SrcUart.lean, futures in a heap) and proved equal to the model's resetReceived / connectionLost under the heap invariant (BV/Proofs/Src/Uart.lean); c11_src_* restate the clauses over the generated definitions (connection_lost never raises, releases every waiter, clears both attributes). "
         "The coroutines Gateway.reset / wait_for_startup_reset are translated too (BV/Gen/SrcUartReset.lean) and run against a script of what reaches the gateway while they are suspended, grouped by loop iteration - every input goes through the generated handlers, the done-callback _reset_cleanup runs between iterations (BV/Py/UartEnv.lean): "
-        "c11_src_reset_request (one RST, first; a second request shares the future and sends nothing), c11_src_reset_only_ack (a fresh reset() returns only if an RSTACK with the software-reset code arrived while it waited - for every script), c11_src_reset_ack, c11_src_reset_timeout (TimeoutError, _reset_future clear again: the next request is fresh), c11_src_reset_lost.",
+        "c11_src_reset_request (one RST, first; a second request shares the future and sends nothing), c11_src_reset_only_ack (a fresh reset() returns only if an RSTACK with the software-reset code arrived while it waited - for every script), c11_src_reset_ack, c11_src_reset_timeout (TimeoutError, _reset_future clear again: the next request is fresh), c11_src_reset_lost; the generated reset is run by the driver against the real coroutine on the virtual loop, script by script (harness/resetsrc.py).",
         ref="6 C11",
         technique="Lean 4 proof (inductive invariant over iteration batches, case analysis over all codes; source-level translation of the Gateway's synchronous methods proved equal to the model, and of the coroutine Gateway.reset with its clauses proved over the generated definition for every script of inputs) + exhaustive differential vs real Gateway/AshProtocol on a virtual-time loop",
         note="Calls (reset, wait_for_startup_reset) start in their own iteration; I/O events are batched. ",
